@@ -1253,6 +1253,155 @@ func (g *gen) pkgFuncVar() string {
 
 // sharedCounter: several closures created in the entry function share variables at
 // different depths; called interleaved.
+// namedResultsReturn: a function with 2-4 named results of mixed kinds (int slots and
+// boxed) whose return statements list expressions over the named results themselves, in
+// permuted / cross-referencing order (all operands must be evaluated before any result is
+// assigned), combined with deferred closures that observe and modify the results, bare
+// returns and several return statements.
+func (g *gen) namedResultsReturn() string {
+	g.Tag("named-results-return")
+	kinds := []string{"int", "int", "string", "float64", "uint8", "bool", "int64", "string", "complex128", "uint"}
+	n := g.Int(2, 4, "nr-n")
+	names := []string{"x", "y", "z", "w"}[:n]
+	ks := make([]string, n)
+	for i := range ks {
+		ks[i] = kinds[g.Pick(len(kinds), "nr-kind")]
+	}
+	if g.Chance(2, 3, "nr-same-kind") {
+		ks[1] = ks[0] // a pure swap needs two results of one type
+	}
+	g.Tag(fmt.Sprintf("named-results-return:%d-results", n))
+	for _, k := range ks {
+		g.Tag("named-result:" + storage(k))
+	}
+	var rl []string
+	for i := range ks {
+		rl = append(rl, names[i]+" "+ks[i])
+	}
+	// an operand list for `return`: result i is computed from result perm[i]
+	operands := func() string {
+		perm := rapid.Permutation(seqInts(n)).Draw(g.T, "nr-perm")
+		if g.no("F-C06-9") {
+			// F-C06-9: the results are assigned one after the other: no operand reads
+			// another named result
+			g.skipped("F-C06-9")
+			perm = seqInts(n)
+		}
+		var ops []string
+		cross := false
+		for i := range ks {
+			j := perm[i]
+			switch {
+			case j != i && ks[j] == ks[i] && g.Bool("nr-plain"):
+				ops = append(ops, names[j]) // return y, x
+				cross = true
+			case g.Chance(1, 6, "nr-lit"):
+				ops = append(ops, g.lit(ks[i]))
+			default:
+				e := g.conv(names[j], ks[j], ks[i])
+				if strings.Contains(e, names[j]) && j != i {
+					cross = true
+				}
+				if ks[j] == ks[i] && j != i && class(ks[i]) != "bool" && class(ks[i]) != "string" && g.Bool("nr-sum") {
+					e = names[i] + " + " + names[j] // return x + y, x
+				}
+				ops = append(ops, e)
+			}
+		}
+		if cross {
+			g.Tag("return-operands-read-other-named-results")
+		}
+		return strings.Join(ops, ", ")
+	}
+	var b strings.Builder
+	for i := range ks {
+		if ks[i] == "int" {
+			fmt.Fprintf(&b, "%s = a + %d\n", names[i], g.Int(1, 9, "nr-init"))
+		} else {
+			fmt.Fprintf(&b, "%s = %s\n", names[i], g.lit(ks[i]))
+		}
+	}
+	if g.Chance(1, 2, "nr-defer") {
+		g.Tag("named-results-return:deferred-closure-observes-and-modifies")
+		var muts []string
+		for i := range ks {
+			if g.Bool("nr-mut") {
+				muts = append(muts, g.capMut(names[i], ks[i]))
+			}
+		}
+		fmt.Fprintf(&b, "defer func() {\n\trec.E(%d, %s)\n%s}()\n", g.Ev(), strings.Join(names, ", "), progen.Indent(strings.Join(muts, "\n")))
+	}
+	fmt.Fprintf(&b, "if a%%2 == 0 {\n\trec.E(%d, %s)\n\treturn %s\n}\n", g.Ev(), strings.Join(names, ", "), operands())
+	if g.Bool("nr-step") {
+		i := g.Pick(n, "nr-step-which")
+		fmt.Fprintf(&b, "%s\n", g.capMut(names[i], ks[i]))
+	}
+	if g.Chance(1, 3, "nr-bare") {
+		g.Tag("named-results-return:bare-return")
+		b.WriteString("return\n")
+	} else {
+		fmt.Fprintf(&b, "return %s\n", operands())
+	}
+	f := g.Top("nr")
+	g.Decls = append(g.Decls, fmt.Sprintf("func %s(a int) (%s) {\n%s}", f, strings.Join(rl, ", "), progen.Indent(b.String())))
+	var s strings.Builder
+	for _, arg := range []int{g.Int(0, 4, "nr-arg") * 2, g.Int(0, 4, "nr-arg2")*2 + 1} {
+		var vs []string
+		for range ks {
+			vs = append(vs, g.Local("n"))
+		}
+		fmt.Fprintf(&s, "%s := %s(%d)\nrec.E(%d, %s)\n", strings.Join(vs, ", "), f, arg, g.Ev(), strings.Join(vs, ", "))
+	}
+	return s.String()
+}
+
+// rangeAssignOuter: `for k, v = range x` assigning (not declaring) variables of an
+// enclosing scope that a closure also reads, the loop 0-2 blocks deeper than the variables.
+func (g *gen) rangeAssignOuter() string {
+	g.Tag("range-assigns-outer-variables")
+	k, v, f := g.Local("rk"), g.Local("rv"), g.Local("rf")
+	vt, src := "int", fmt.Sprintf("[]int{%d, %d, %d}", g.Int(0, 9, "ra0"), g.Int(0, 9, "ra1"), g.Int(0, 9, "ra2"))
+	switch g.Pick(3, "range-src") {
+	case 0:
+		g.Tag("range-assigns-outer:string")
+		vt, src = "rune", g.OneOf("ra-str", `"abc"`, `"héé"`, `"x"`, `""`)
+	case 1:
+		g.Tag("range-assigns-outer:array")
+		src = fmt.Sprintf("[3]int{%d, %d, 7}", g.Int(0, 9, "ra3"), g.Int(0, 9, "ra4"))
+	default:
+		g.Tag("range-assigns-outer:slice")
+	}
+	if vt == "rune" && g.no("F-C06-11") {
+		// F-C06-11: the key variable of an assigning string range ends at len(s)
+		g.skipped("F-C06-11")
+		vt, src = "int", "[]int{4, 5}"
+	}
+	vars := k + ", " + v
+	if vt == "rune" && g.no("F-C06-10") {
+		// F-C06-10: the rune of a string range assigned to a variable of an outer frame
+		g.skipped("F-C06-10")
+		vars = k
+	} else if g.Chance(1, 4, "ra-blank-key") {
+		vars = "_, " + v
+	}
+	depth := g.Int(0, 2, "ra-depth")
+	g.Tag(fmt.Sprintf("range-assigns-outer:depth-%d", depth))
+	loop := fmt.Sprintf("for %s = range %s {\n\trec.E(%d)\n\trec.E(%s())\n}\n", vars, src, g.Ev(), f)
+	for i := 0; i < depth; i++ {
+		w := g.Local("rw")
+		loop = fmt.Sprintf("if %s := %d; %s >= 0 {\n%s}\n", w, i, w, progen.Indent(loop))
+	}
+	return fmt.Sprintf("var %s int\nvar %s %s\n%s := func() (int, %s) { return %s, %s }\n%srec.E(%d, %s, %s)\n", k, v, vt, f, vt, k, v, loop, g.Ev(), k, v)
+}
+
+func seqInts(n int) []int {
+	l := make([]int, n)
+	for i := range l {
+		l[i] = i
+	}
+	return l
+}
+
 func (g *gen) sharedCounter() string {
 	g.Tag("shared-counter-closures")
 	k := capKinds[g.Pick(9, "sc-kind")] // scalar kinds only
@@ -1302,7 +1451,7 @@ func generate(t *rapid.T, px string, avoid map[string]bool) gobatch.Program {
 	var mid []string // statements without a read-after-burn part
 	nscen := g.Int(2, 6, "nscenarios")
 	for i := 0; i < nscen; i++ {
-		switch g.Pick(17, "scenario") {
+		switch g.Pick(21, "scenario") {
 		case 0, 1, 2:
 			g.escapeClosure()
 		case 3, 4:
@@ -1323,6 +1472,10 @@ func generate(t *rapid.T, px string, avoid map[string]bool) gobatch.Program {
 			mid = append(mid, g.sharedCounter())
 		case 12:
 			mid = append(mid, g.funcLitCalls())
+		case 13, 14, 15:
+			mid = append(mid, g.namedResultsReturn())
+		case 16:
+			mid = append(mid, g.rangeAssignOuter())
 		default:
 			f := g.declFunc()
 			mid = append(mid, g.callForms(f))
